@@ -45,6 +45,10 @@ func build(k, dpos, tokens int, lang string, truth int) *drv.Graph {
 			var c *drv.Cond
 			if lang == "xpath" {
 				c = drv.XPathConst(truth&(1<<(ci-1)) != 0)
+			} else if lang == "num-expr" {
+				c = drv.NumConst(truth&(1<<(ci-1)) != 0, "")
+			} else if lang == "num-xpath" {
+				c = drv.NumConst(truth&(1<<(ci-1)) != 0, "xpath")
 			} else if lang == "dataobj" {
 				c = drv.DataObjConst("d", fmt.Sprintf("c%d", ci), truth&(1<<(ci-1)) != 0)
 			} else {
@@ -64,40 +68,51 @@ func scn(k, dpos, tokens, bound int, lang string) *h.Scn {
 		ls *drv.LockStep
 	}
 	var vs []variant
-	for truth := 0; truth < 1<<k; truth++ {
-		g := build(k, dpos, tokens, lang, truth)
-		if lang == "dataobj" {
-			body := "{"
-			for i := 1; i <= k; i++ {
-				if i > 1 {
-					body += ", "
-				}
-				body += fmt.Sprintf("\"c%d\": %v", i, truth&(1<<(i-1)) != 0)
+	langs := []string{lang}
+	if lang == "same-text-both-languages" {
+		// the same condition texts under both languages, in one process (and in both orders over
+		// the run): what one language has evaluated must not influence the other
+		langs = []string{"num-xpath", "num-expr", "num-xpath"}
+	}
+	for li, lang := range langs {
+		for truth := 0; truth < 1<<k; truth++ {
+			if li == 2 && truth != (1<<k)-1 {
+				continue
 			}
-			g.Data = append(g.Data, drv.DataObj{ID: "do_d", Name: "d", Body: body + "}"})
-		}
-		vars := map[string]any{}
-		for i := 1; i <= k; i++ {
-			vars[fmt.Sprintf("c%d", i)] = truth&(1<<(i-1)) != 0
-		}
-		ls := &drv.LockStep{Sig: "C04/xor", G: g, Defs: g.Parse(), Vars: vars}
-		ls.AfterFinal = func(r *drv.Run, m *drv.Model) {
-			// FlowTraces whose source is the gateway list exactly one flow
-			for _, s := range r.Stream {
-				if len(s) > 8 && s[:8] == "Flow(X->" {
-					n := 1
-					for _, c := range s {
-						if c == ',' {
-							n++
+			g := build(k, dpos, tokens, lang, truth)
+			if lang == "dataobj" {
+				body := "{"
+				for i := 1; i <= k; i++ {
+					if i > 1 {
+						body += ", "
+					}
+					body += fmt.Sprintf("\"c%d\": %v", i, truth&(1<<(i-1)) != 0)
+				}
+				g.Data = append(g.Data, drv.DataObj{ID: "do_d", Name: "d", Body: body + "}"})
+			}
+			vars := map[string]any{}
+			for i := 1; i <= k; i++ {
+				vars[fmt.Sprintf("c%d", i)] = truth&(1<<(i-1)) != 0
+			}
+			ls := &drv.LockStep{Sig: "C04/xor", G: g, Defs: g.Parse(), Vars: vars}
+			ls.AfterFinal = func(r *drv.Run, m *drv.Model) {
+				// FlowTraces whose source is the gateway list exactly one flow
+				for _, s := range r.Stream {
+					if len(s) > 8 && s[:8] == "Flow(X->" {
+						n := 1
+						for _, c := range s {
+							if c == ',' {
+								n++
+							}
+						}
+						if n != 1 {
+							h.Fail("C04/xor/one-flow", "the exclusive gateway's FlowTrace lists %d flows: %s", n, s)
 						}
 					}
-					if n != 1 {
-						h.Fail("C04/xor/one-flow", "the exclusive gateway's FlowTrace lists %d flows: %s", n, s)
-					}
 				}
 			}
+			vs = append(vs, variant{ls})
 		}
-		vs = append(vs, variant{ls})
 	}
 	body := func() {
 		v := vs[verifrt.Choose(len(vs))]
@@ -131,6 +146,9 @@ func init() {
 					}
 					if k <= 2 || (k == 3 && tokens == 1) || thorough {
 						out = append(out, scn(k, dpos, tokens, 0, "dataobj"))
+					}
+					if (k <= 2 && tokens == 1) || thorough {
+						out = append(out, scn(k, dpos, tokens, 0, "same-text-both-languages"))
 					}
 					if (k <= 2 && tokens <= 2) || (thorough && k <= 3) {
 						out = append(out, scn(k, dpos, tokens, 1, "expr"))
